@@ -3,6 +3,8 @@ files / cue texts / cue settings inside the WebVTT grammar, projection of the re
 from __future__ import annotations
 
 import re
+
+from .core import flag
 from fractions import Fraction
 
 from .srtvtt_common import time_obs, rgba, open_text
@@ -349,7 +351,7 @@ def items_of(p):
       i = 1 if fs is styles.FontStyleType.italic else 0
     td = e.get_style(styles.StyleProperties.TextDecoration)
     if td is not None and td.underline is not None:
-      u = 1 if td.underline else 0
+      u = flag(td.underline)
     c = e.get_style(styles.StyleProperties.Color)
     if c is not None:
       col = rgba(c)
